@@ -60,8 +60,13 @@ class Parameter:
 
     @value.setter
     def value(self, val):
+        previous = getattr(self, "_value", None)
         self._value = val
-        self.validate()
+        try:
+            self.validate()
+        except Exception:
+            self._value = previous  # a rejected value leaves the parameter unchanged
+            raise
 
     def validate(self):
         """Validates data against the pool of enforcers."""
